@@ -93,7 +93,10 @@ theorem tmp_opts_default_uncompressed (rio : Dict) : Dict.get (tmpOpts rio (.fla
 /-- `mem_copy_agrees_with_file_copy`: the copy to memory is given `rio_opts` minus the seven keys that describe the dataset
 (`width … nodata`); the temporary image it copies FROM carries exactly those seven with the same values — so the memory
 destination ends up described like the file destination — PROVIDED the intermediate-compression dict does not itself
-contain one of the seven (`hic`; it is meant to hold compression settings only) -/
+contain one of the seven (`hic`; it is meant to hold compression settings only).  At the excluded point (e.g.
+`intermediate_compression={"nodata": 7}`) the two option dictionaries differ, but run on the real code the two destinations
+still agree: GDAL's copy takes the dataset description from the temporary image on both routes (pinned by the harness,
+key `mem-and-file-destinations-differ`) -/
 theorem mem_copy_agrees_with_file_copy (rio : Dict) (ic : IComp) (k : String)
     (hic : k ∈ datasetKeys → ic.norm.lastGet k = none) :
     (match Dict.get (rio.without datasetKeys) k with
@@ -410,12 +413,12 @@ example : Ev.buildOverviews [2, 4, 8, 16, 32] "nearest" ∈
 
 /-- an empty layer list: `None`, and nothing at all is looked at or touched (also an existing destination) -/
 theorem layers_empty (a : LArgs) (h : a.layers = []) : writeCogLayers a = ([], .ok .none) := by
-  unfold writeCogLayers; simp [h]
+  unfold writeCogLayers writeCogLayersWith; simp [h]
 
 /-- `layers_guard`: an existing destination without `overwrite` is refused before any layer is written -/
 theorem layers_guard (a : LArgs) (p : String) (hne : a.layers ≠ []) (hd : a.dst = .path p true) (ho : a.overwrite = false) :
     writeCogLayers a = ([], .error .osError) := by
-  unfold writeCogLayers
+  unfold writeCogLayers writeCogLayersWith
   cases hl : a.layers with
   | nil => exact absurd hl hne
   | cons f rest => simp [hd, ho]
@@ -461,29 +464,60 @@ def finalOpts (evs : List Ev) : Option Dict :=
     | some (.openW _ o) => some o
     | _ => none
 
-/-- `explicit_none_overrides_attrs_cex` (code as it is on HEAD; repaired on branch fix2-C15): for an array with
-`attrs['nodata'] = 255`, `to_cog(xx, nodata=None)` creates the file with `nodata=255`, but `to_cog(xx, overviews=[ov],
-nodata=None)` creates it with `nodata=None` — the explicit `None` means "not given" on one path and "no nodata" on the other -/
-theorem explicit_none_overrides_attrs_cex :
+/-- `explicit_none_overrides_attrs_asfound_cex` (the code AS FOUND, before fix 4344a79 / finding F65): for an array with
+`attrs['nodata'] = 255`, `to_cog(xx, nodata=None)` created the file with `nodata=255`, but `to_cog(xx, overviews=[ov],
+nodata=None)` created it with `nodata=None` — the explicit `None` meant "not given" on one path and "no nodata" on the other -/
+theorem explicit_none_overrides_attrs_asfound_cex :
+    let im : Layer := { shape := [4, 4], g := some ⟨4, 4⟩, dtype := "uint8", isFloat := false, attrsNodata := .int 255 }
+    let ov : Layer := { shape := [2, 2], g := some ⟨2, 2⟩, dtype := "uint8", isFloat := false, attrsNodata := .int 255 }
+    ((finalOpts (toCogAsFound { im := im, dst := .mem, levels := some [], extra := [("nodata", .none)] }).1).map (Dict.get · "nodata")
+      = some (some (.int 255))) ∧
+    ((finalOpts (toCogAsFound { im := im, dst := .mem, overviews := some [ov], extra := [("nodata", .none)] }).1).map (Dict.get · "nodata")
+      = some (some .none)) := by
+  decide
+
+/-- the same calls on the repaired code: the attribute's value on both paths -/
+theorem explicit_none_keeps_attrs_witness :
     let im : Layer := { shape := [4, 4], g := some ⟨4, 4⟩, dtype := "uint8", isFloat := false, attrsNodata := .int 255 }
     let ov : Layer := { shape := [2, 2], g := some ⟨2, 2⟩, dtype := "uint8", isFloat := false, attrsNodata := .int 255 }
     ((finalOpts (toCog { im := im, dst := .mem, levels := some [], extra := [("nodata", .none)] }).1).map (Dict.get · "nodata")
       = some (some (.int 255))) ∧
     ((finalOpts (toCog { im := im, dst := .mem, overviews := some [ov], extra := [("nodata", .none)] }).1).map (Dict.get · "nodata")
-      = some (some .none)) ∧
-    ((finalOpts (toCog { im := im, dst := .mem, overviews := some [ov], extra := [] }).1).map (Dict.get · "nodata")
-      = some (some (.int 255))) := by
+      = some (some (.int 255))) ∧
+    ((finalOpts (toCog { im := im, dst := .mem, overviews := some [ov], extra := [("nodata", .int 7)] }).1).map (Dict.get · "nodata")
+      = some (some (.int 7))) := by
   decide
+
+/-- `layers_nodata_resolution` (repaired code, all inputs): on the supplied-overviews path the `nodata` option of the final
+copy is the caller's keyword when it is given and not `None`, else the first layer's `attrs['nodata']` (the `nodata` key is
+always present there: `_default_cog_opts(nodata=attrs.get("nodata"))`) — the same rule as the direct path
+(`entry_nodata_direct`); unique keyword names assumed as Python guarantees (`hu`: the last `nodata` entry is the first) -/
+theorem layers_nodata_resolution (b w h : Nat) (fl : Bool) (attrs : V) (extra : Dict)
+    (hu : extra.lastGet "nodata" = Dict.get extra "nodata") :
+    Dict.get ((defaultCogOpts b w h fl [("nodata", attrs)]).update (layersExtra true extra)) "nodata" =
+      some (if extra.getNone "nodata" = .none then attrs else extra.getNone "nodata") := by
+  rw [(layers_nodata_flow b w h fl attrs (layersExtra true extra) false (.flag false) ⟨[], none, "", false, .none⟩ "" rfl).1]
+  unfold layersExtra
+  by_cases hn : extra.getNone "nodata" = .none
+  · have : (extra.without ["nodata"]).lastGet "nodata" = none := by
+      apply Dict.lastGet_of_get_none
+      rw [Dict.get_without]; rfl
+    simp only [hn, Bool.true_and, decide_true, if_true, this]
+  · simp only [hn, Bool.true_and, decide_false, Bool.false_eq_true, if_false, hu]
+    unfold Dict.getNone at hn ⊢
+    cases hg : Dict.get extra "nodata" with
+    | none => simp [hg] at hn
+    | some v => simp
 
 /-- with supplied overviews `overview_levels` / `overview_resampling` are not forwarded: they have no effect at all -/
 theorem entry_overviews_ignore_levels (a : CArgs) (ovs : List Layer) (h : a.overviews = some ovs)
     (rs : Option String) (lv : Option (List Nat)) :
     writeCogEntry { a with resampling := rs, levels := lv } = writeCogEntry a := by
-  unfold writeCogEntry; simp [h]
+  unfold writeCogEntry writeCogEntryWith; simp [h]
 
 /-- `to_cog` never removes anything from the file system -/
 theorem to_cog_direct_never_unlinks (a : CArgs) (h : a.overviews = none) (q : String) : Ev.unlink q ∉ (toCog a).1 := by
-  unfold toCog writeCogEntry
+  unfold toCog writeCogEntry writeCogEntryWith
   simp only [h]
   cases hg : a.im.g with
   | none => simp
